@@ -24,6 +24,12 @@ type IndexStorage struct {
 // SetIndex writes the index to disk and updates the cache.
 func (s *IndexStorage) SetIndex(idx *index.Index) (err error) {
 	if err := s.writeIndex(idx); err != nil {
+		// The file may have been truncated or (partly) rewritten before the
+		// failure; whatever is cached no longer describes it, and a stat
+		// match (same size within the same mtime tick) must not revive it.
+		if s.cache != nil {
+			s.cache.Clear()
+		}
 		return err
 	}
 
